@@ -464,8 +464,63 @@ func (c *c16) buildEval1(n *ev, path string) lazy.Eval[int] {
 	panic("buildEval")
 }
 
+// ticketProgram: Map / Map2 functions are not memoised - every evaluation of a program runs them again. A function that
+// hands out a fresh ticket per call makes that visible: every evaluation must combine ITS OWN ticket with the (shared,
+// memoised) right operand; two overlapping evaluations of the same Eval value must not see each other's intermediate
+// values.
+func (c *c16) ticketProgram() {
+	r := c.r
+	r.Case = "eval-tickets"
+	c.stallN = 1 + r.Choose(2, "stalls")
+	tickets := 0
+	k := c.counter("Call@right")
+	left := lazy.Done(0).Map(func(int) int { r.Gate("ticket"); tickets++; return tickets })
+	right := lazy.Call(func() int { c.enter(k); defer c.leave(k); return 1000 })
+	var prog lazy.Eval[int]
+	switch r.Choose(3, "ticketShape") {
+	case 0:
+		prog = lazy.Map2(left, right, func(a, b int) int { return a + b })
+	case 1:
+		prog = left.FlatMap(func(a int) lazy.Eval[int] { return right.Map(func(b int) int { return a + b }) })
+	default:
+		prog = lazy.Map2(lazy.Map2(left, right, func(a, b int) int { return a + b }), lazy.Done(0), func(a, b int) int { return a + b })
+	}
+	n := r.Range(2, 4, "nTasks")
+	got := make([]int, n)
+	for i := 0; i < n; i++ {
+		i := i
+		r.Go(fmt.Sprintf("evaluator%d", i), func(t *sim.Task) {
+			t.Yield("get")
+			c.inEval++
+			if c.inEval > 1 {
+				c.overlap = true
+			}
+			v := prog.Get()
+			r.Gate("ret")
+			c.inEval--
+			got[i] = v
+		})
+	}
+	if !c.quiesce() {
+		return
+	}
+	seen := map[int]bool{}
+	for i, v := range got {
+		tk := v - 1000
+		if tk < 1 || tk > tickets || seen[tk] {
+			r.Violate("wrong-value", "%d evaluations of one Eval (a ticket-drawing Map function combined with a memoised Call) returned %v: evaluation %d does not carry a ticket of its own (tickets 1..%d were drawn)", n, got, i, tickets)
+			return
+		}
+		seen[tk] = true
+	}
+}
+
 func (c *c16) evalTree() {
 	r := c.r
+	if r.Bool(1, 10, "ticketProgram") {
+		c.ticketProgram()
+		return
+	}
 	budget := r.Range(1, 40, "evsize")
 	root := c.genEval(0, &budget)
 	var sb strings.Builder
@@ -946,6 +1001,29 @@ func (c *c16) tailRec() {
 	}
 	if v := list.FoldRight(list.Of(xs...), 0, add).Get(); v != sum {
 		r.Violate("wrong-value", "list.FoldRight over %d elements returned %d, want %d", m, v, sum)
+	}
+	// programs over nilable result types whose value is nil (an Eval[T] is generic: a nil error / any / pointer / slice is a value)
+	func() {
+		defer func() {
+			if p := recover(); p != nil {
+				r.Violate("get-panic", "an Eval whose value is a nil error / any / pointer / slice panicked in Get: %v", p)
+			}
+		}()
+		e1 := lazy.Call(func() error { return nil })
+		e2 := lazy.Func1(func(int) any { return nil })(1)
+		e3 := lazy.TailCall(func() lazy.Eval[*int] { return lazy.Done[*int](nil) })
+		e4 := lazy.Call(func() []int { return nil }).Map(func(s []int) []int { return s })
+		e5 := lazy.Map2(lazy.Call(func() error { return nil }), lazy.Done[error](nil), func(a, b error) error { return a })
+		for rep := 0; rep < 2; rep++ {
+			if e1.Get() != nil || e2.Get() != nil || e3.Get() != nil || e4.Get() != nil || e5.Get() != nil {
+				r.Violate("wrong-value", "an Eval whose value is nil evaluated to a non-nil value")
+				return
+			}
+		}
+		r.Probe("nil-valued-programs")
+	}()
+	if r.Failed() {
+		return
 	}
 	// the deferred rest of a fold is a deferred computation like any other: asking the same fold twice, or using the
 	// rest twice inside one step, must neither change the value nor run a step (= pull the read-once source) again
